@@ -530,12 +530,91 @@ Section Rejections.
     now rewrite (checks_includes doc k j n Hc Hk Hj Hn) in H.
   Qed.
 
+  (* ---- inter-field rules ---- *)
+
+  Lemma check_kube_clash j : name_field_clash_in j = true -> check_kube label_selector_ok j = false.
+  Proof.
+    unfold name_field_clash_in, declared_match_names, declared_field_exprs, on_metadata_name, check_kube.
+    intros H. rewrite H. now rewrite andb_false_r.
+  Qed.
+
+  Lemma checks_kube_false doc j :
+    In j (get_arr (bs "kubernetes") doc) -> check_kube label_selector_ok j = false -> checks' doc = false.
+  Proof.
+    intros Hj Hc. unfold checks_v1. do 7 (apply andb_false_iff; left). apply andb_false_iff; right.
+    now apply (forallb_false_of _ _ _ j Hj).
+  Qed.
+
+  Lemma rejects_name_field_clash doc : name_field_clash doc = true -> load' doc = Rejected.
+  Proof.
+    unfold name_field_clash. intros H. apply andb_true_iff in H as [Hv H].
+    apply existsb_exists in H as [j [Hj H]].
+    unfold load. rewrite (is_v1_detect _ Hv).
+    rewrite (checks_kube_false doc j Hj (check_kube_clash j H)). now rewrite andb_false_r.
+  Qed.
+
+  Lemma expr_bad_not_ok e : expr_opvals_bad e = true -> lexpr_opvals_ok e = false.
+  Proof.
+    unfold expr_opvals_bad, op_is, lexpr_opvals_ok, mem_bytes. cbn [existsb].
+    set (op := get_str (bs "operator") e). set (vals := get_arr (bs "values") e).
+    intros H. apply orb_true_iff in H as [H|H]; apply andb_true_iff in H as [Ho Hn].
+    - rewrite orb_false_r in Ho. rewrite Ho. now rewrite Hn.
+    - rewrite orb_false_r in Ho.
+      destruct (bytes_eqb op (bs "In") || bytes_eqb op (bs "NotIn")) eqn:E.
+      + (* an operator is one string *)
+        exfalso. apply orb_true_iff in E. apply orb_true_iff in Ho.
+        destruct E as [E|E]; destruct Ho as [Ho|Ho];
+          apply bytes_eqb_eq in E; apply bytes_eqb_eq in Ho; rewrite E in Ho; discriminate.
+      + rewrite Ho. now apply negb_true_iff in Hn.
+  Qed.
+
+  Lemma sel_bad_not_ok s : selector_opvals_bad s = true -> lsel_opvals_ok s = false.
+  Proof.
+    unfold selector_opvals_bad, lsel_opvals_ok. intros H. apply existsb_exists in H as [e [He H]].
+    exact (forallb_false_of _ _ _ e He (expr_bad_not_ok e H)).
+  Qed.
+
+  (* a binding one of whose declared label selectors is bad fails both selector checks' conjunction *)
+  Lemma opt_sels_false b :
+    existsb selector_opvals_bad (declared_label_selectors b) = true ->
+    opt_sel_ok label_selector_ok (bs "labelSelector") b
+    && match jget (bs "namespace") b with Some ns => opt_sel_ok label_selector_ok (bs "labelSelector") ns | None => true end
+    = false.
+  Proof.
+    unfold declared_label_selectors, opt_sel_ok. intros H. apply existsb_exists in H as [s [Hs H]].
+    apply sel_bad_not_ok in H. apply in_app_or in Hs as [Hs|Hs].
+    - destruct (jget (bs "labelSelector") b) as [s'|]; [|contradiction]. destruct Hs as [<-|[]]. now rewrite H.
+    - destruct (jget (bs "namespace") b) as [ns|]; [|contradiction].
+      destruct (jget (bs "labelSelector") ns) as [s'|]; [|contradiction]. destruct Hs as [<-|[]].
+      rewrite H. now rewrite andb_false_r.
+  Qed.
+
+  Lemma rejects_bad_label_opvals doc : bad_label_opvals doc = true -> load' doc = Rejected.
+  Proof.
+    unfold bad_label_opvals. intros H. apply andb_true_iff in H as [Hv H].
+    apply existsb_exists in H as [k [Hk H]]. apply existsb_exists in H as [b [Hb H]].
+    apply opt_sels_false in H.
+    unfold load. rewrite (is_v1_detect _ Hv).
+    assert (E : checks' doc = false).
+    { unfold selector_keys in Hk. cbn [In] in Hk. destruct Hk as [<-|[<-|[<-|[]]]].
+      - apply (checks_kube_false doc b Hb). unfold check_kube.
+        rewrite <- !andb_assoc. rewrite andb_assoc with (b1 := opt_sel_ok _ _ _). rewrite H.
+        now rewrite andb_false_r.
+      - unfold checks_v1. do 4 (apply andb_false_iff; left). apply andb_false_iff; right.
+        apply (forallb_false_of _ _ _ b Hb). unfold check_adm. rewrite <- andb_assoc. rewrite H. now rewrite andb_false_r.
+      - unfold checks_v1. apply andb_false_iff; left. apply andb_false_iff; right.
+        apply (forallb_false_of _ _ _ b Hb). unfold check_adm. rewrite <- andb_assoc. rewrite H. now rewrite andb_false_r. }
+    now rewrite E, andb_false_r.
+  Qed.
+
   Lemma rejects_must_reject doc : must_reject doc = true -> load' doc = Rejected.
   Proof.
-    unfold must_reject. intros H. apply orb_true_iff in H as [H|H]; [apply orb_true_iff in H as [H|H]|].
+    unfold must_reject. intros H. repeat (apply orb_true_iff in H as [H|H]).
     - now apply rejects_bad_version.
     - now apply rejects_bad_include.
     - now apply rejects_unknown_top_field.
+    - now apply rejects_name_field_clash.
+    - now apply rejects_bad_label_opvals.
   Qed.
 End Rejections.
 
@@ -636,7 +715,7 @@ Section Rejections2.
     { unfold checks_v1. do 7 (apply andb_false_iff; left). apply andb_false_iff; right.
       apply (forallb_false_of _ _ _ j Hj). unfold check_kube, opt_sel_ok.
       destruct Hs as [Hs|[ns [Hn Hs]]].
-      - rewrite Hs, Hbad. now rewrite andb_false_r.
+      - rewrite Hs, Hbad. now rewrite !andb_false_r.
       - rewrite Hn, Hs, Hbad. now rewrite !andb_false_r. }
     now rewrite E, andb_false_r.
   Qed.
@@ -652,7 +731,7 @@ Section Rejections2.
     intros Hv Hk Hj Hs Hbad. unfold load. rewrite (is_v1_detect _ Hv).
     assert (Hadm : check_adm label_selector_ok (kube_names_v1 doc) j = false).
     { unfold check_adm, opt_sel_ok. destruct Hs as [Hs|[ns [Hn Hs]]].
-      - rewrite Hs, Hbad. now rewrite andb_false_r.
+      - rewrite Hs, Hbad. now rewrite !andb_false_r.
       - rewrite Hn, Hs, Hbad. now rewrite !andb_false_r. }
     assert (E : checks_v1 cron_ok label_selector_ok duration_ns webhook_ok doc = false).
     { unfold checks_v1. destruct Hk as [-> | ->].
